@@ -767,8 +767,14 @@ func firstStringParam(fn *ssa.Function) *ssa.Parameter {
 }
 
 func umbrellaSettingRule(p *Prog, r *Report, id string) {
-	fields := []string{"IgnoreBasicZeroValueField", "IgnoreStructZeroValueField", "IgnoreNillableZeroValueField"}
-	r.Rule(id, "`update:ignoreZeroValueField [yes|no]` sets all three categories to the parsed value: evaluated with the command fixed, parse.Bool's result fixed to v and the three flags initially !v, config.parseCommon cannot return success with IgnoreBasic-, IgnoreStruct- or IgnoreNillableZeroValueField still !v (for v = true and v = false)", 6)
+	boolSettingRule(p, r, id, "update:ignoreZeroValueField", "`update:ignoreZeroValueField [yes|no]` sets all three categories to the parsed value: evaluated with the command fixed, parse.Bool's result fixed to v and the three flags initially !v, config.parseCommon cannot return success with IgnoreBasic-, IgnoreStruct- or IgnoreNillableZeroValueField still !v (for v = true and v = false)",
+		"IgnoreBasicZeroValueField", "IgnoreStructZeroValueField", "IgnoreNillableZeroValueField")
+}
+
+// boolSettingRule: with the command fixed to key and parse.Bool's result fixed to v, parseCommon cannot return success
+// while one of the fields still holds !v — for both values of v, so `no` switches off what an outer level enabled.
+func boolSettingRule(p *Prog, r *Report, id, key, text string, fields ...string) {
+	r.Rule(id, text, 2*len(fields))
 	fi, sf := needFunc(p, r, "config.parseCommon")
 	if fi == nil {
 		return
@@ -790,7 +796,7 @@ func umbrellaSettingRule(p *Prog, r *Report, id string) {
 				tracked: tracked,
 				assume: func(v ssa.Value, _ func(ssa.Value) absVal) (absVal, bool) {
 					if v == cmd {
-						return aStr("update:ignoreZeroValueField"), true
+						return aStr(key), true
 					}
 					if extractOf(v, 0, modPath+"/config/parse", "Bool") {
 						nBool++
@@ -811,12 +817,12 @@ func umbrellaSettingRule(p *Prog, r *Report, id string) {
 				}
 				return !(st[field].k == absBool && st[field].b == val)
 			})
-			site := fmt.Sprintf("config.parseCommon/update:ignoreZeroValueField=%v sets .%s", val, field)
+			site := fmt.Sprintf("config.parseCommon/%s=%v sets .%s", key, val, field)
 			switch {
 			case nBool == 0:
 				r.Bad(site, p.PosStr(fi.Decl.Pos()), "the arm does not parse its value with parse.Bool: it cannot be evaluated")
 			case got != nil:
-				r.Bad(site, p.PosStr(got.Pos()), fmt.Sprintf("a path returns success with .%s not set to the written value: the umbrella setting does not reach this category (zero-valued source fields of that kind overwrite the target)", field))
+				r.Bad(site, p.PosStr(got.Pos()), fmt.Sprintf("a path returns success with .%s not set to the written value: the setting as written is not in effect (an outer level's value, or another category's, stays)", field))
 			default:
 				r.OK(site, p.PosStr(fi.Decl.Pos()), "always receives the parsed value")
 			}
@@ -928,4 +934,761 @@ func relativePackageRule(p *Prog, r *Report, id string) {
 			r.OK(site, p.PosStr(fi.Decl.Pos()), fmt.Sprintf("joined with the declaring package on every successful path (%d recognised tests)", seen))
 		}
 	}
+}
+
+// ---------------------------------------------------------------------------
+// C10.R8 / C05.R12: type strings are identities, not text
+
+func isTypeStringLoad(v ssa.Value) bool {
+	ld, ok := v.(*ssa.UnOp)
+	if !ok || ld.Op != token.MUL {
+		return false
+	}
+	fa, ok := ld.X.(*ssa.FieldAddr)
+	if !ok || fieldName(fa) != "String" {
+		return false
+	}
+	pt, ok := fa.X.Type().Underlying().(*types.Pointer)
+	return ok && isNamed(pt.Elem(), modPath+"/xtype", "Type")
+}
+
+func typeStringOpaqueRule(p *Prog, r *Report, id string) {
+	r.Rule(id, "the struct a method's field settings apply to is identified by a type string taken as it is: the value stored in builder.MethodContext.FieldsTarget is xtype.Type.String of the target or of its pointee (a choice between such loads), the same view MethodContext.Field/DefinedFields compare it with; and no own code edits a type string with package strings (TrimPrefix(\"*\") and the like misjudge named pointer types) — otherwise ignore/map settings silently stop applying", 2)
+	// (a) origin of FieldsTarget
+	n := 0
+	for _, fi := range p.Funcs {
+		if fi.Lit != nil || relPkg(fi.Pkg.PkgPath) != "generator" {
+			continue
+		}
+		sf := p.SSAFunc(fi)
+		if sf == nil {
+			continue
+		}
+		allInstrs(sf, true, func(in ssa.Instruction) {
+			st, ok := in.(*ssa.Store)
+			if !ok {
+				return
+			}
+			fa, ok := st.Addr.(*ssa.FieldAddr)
+			if !ok || fieldName(fa) != "FieldsTarget" {
+				return
+			}
+			n++
+			site := fmt.Sprintf("%s/FieldsTarget =#%d", fi.Name(), n)
+			var ok2 func(v ssa.Value, d int) bool
+			ok2 = func(v ssa.Value, d int) bool {
+				if d > 6 {
+					return false
+				}
+				if isTypeStringLoad(v) {
+					return true
+				}
+				if ph, isPhi := v.(*ssa.Phi); isPhi {
+					for _, e := range ph.Edges {
+						if !ok2(e, d+1) {
+							return false
+						}
+					}
+					return true
+				}
+				return false
+			}
+			if ok2(st.Val, 0) {
+				r.OK(site, p.PosStr(st.Pos()), "a type's String as it is")
+			} else {
+				r.Bad(site, p.PosStr(st.Pos()), "FieldsTarget is not the String of a type (target or its pointee) but a computed text: it no longer equals target.String of the struct being assigned for some type shapes (e.g. named pointer types), so the method's ignore/map settings are silently not applied")
+			}
+		})
+	}
+	if n == 0 {
+		r.Bad("generator/FieldsTarget", "", "no store to MethodContext.FieldsTarget found")
+	}
+	// (b) no string surgery on type strings
+	m := 0
+	for _, cs := range p.Calls() {
+		fn, ok := cs.Callee.(*types.Func)
+		if !ok || objPkgPath(fn) != "strings" || cs.Encl == nil {
+			continue
+		}
+		for _, a := range cs.Call.Args {
+			sel, ok := ast.Unparen(a).(*ast.SelectorExpr)
+			if !ok || sel.Sel.Name != "String" {
+				continue
+			}
+			if t := cs.Pkg.TypesInfo.TypeOf(sel.X); t == nil || !isNamed(derefType(t), modPath+"/xtype", "Type") {
+				continue
+			}
+			m++
+			r.Bad(cs.Encl.Name()+"/strings."+fn.Name()+"(type string)", p.PosStr(cs.Call.Pos()), "a type string is edited as text: type identity must be decided on the xtype flags (Pointer, PointerInner, Named …)")
+		}
+	}
+	if m == 0 {
+		r.OK("own code/no text surgery on type strings", "", "no strings.* call receives an xtype.Type.String")
+	}
+}
+
+// ---------------------------------------------------------------------------
+// C11.R12: the Update flag of the assignment reaches the zero-value guards
+
+func updateReachesGuardRule(p *Prog, r *Report, id string) {
+	r.Rule(id, "the zero-value guards see that the source is applied on top of an existing value: every call of builder.shouldCheckAgainstZero receives as isUpdate the Update flag of the *AssignTo the enclosing function was given (assignTo.Update) — not the method-level ctx.Conf.UpdateTarget, which is false for default FUNC / default:update methods", 2)
+	callee := p.Func("builder.shouldCheckAgainstZero")
+	if callee == nil {
+		r.Unresolved("builder.shouldCheckAgainstZero")
+		return
+	}
+	sig := callee.Obj.Type().(*types.Signature)
+	idx := -1
+	nb := 0
+	for i := 0; i < sig.Params().Len(); i++ {
+		if types.Identical(sig.Params().At(i).Type(), types.Typ[types.Bool]) {
+			if nb == 0 {
+				idx = i
+			}
+			nb++
+		}
+	}
+	if idx < 0 {
+		r.Unresolved("builder.shouldCheckAgainstZero/isUpdate parameter")
+		return
+	}
+	n := 0
+	for _, fi := range p.Funcs {
+		if fi.Lit != nil || relPkg(fi.Pkg.PkgPath) != "builder" {
+			continue
+		}
+		sf := p.SSAFunc(fi)
+		if sf == nil {
+			continue
+		}
+		allInstrs(sf, true, func(in ssa.Instruction) {
+			c, ok := in.(*ssa.Call)
+			if !ok || ssaCalleeObj(c) == nil || ssaCalleeObj(c).Origin() != callee.Obj.Origin() || idx >= len(c.Call.Args) {
+				return
+			}
+			n++
+			site := fmt.Sprintf("%s/shouldCheckAgainstZero#%d isUpdate", fi.Name(), n)
+			a := c.Call.Args[idx]
+			good := false
+			if ld, isLd := a.(*ssa.UnOp); isLd && ld.Op == token.MUL {
+				if fa, isFA := ld.X.(*ssa.FieldAddr); isFA && fieldName(fa) == "Update" {
+					if prm, isPrm := fa.X.(*ssa.Parameter); isPrm {
+						if pt, isPtr := prm.Type().(*types.Pointer); isPtr && isNamed(pt.Elem(), modPath+"/builder", "AssignTo") {
+							good = true
+						}
+					}
+				}
+			}
+			if good {
+				r.OK(site, p.PosStr(c.Pos()), "assignTo.Update")
+			} else {
+				r.Bad(site, p.PosStr(c.Pos()), "isUpdate is not the Update flag of the function's *AssignTo: in a default FUNC / default:update method the guard `if source.F != <zero>` is not emitted for this field, so a zero source value overwrites FUNC's value despite update:ignoreZeroValueField")
+			}
+		})
+	}
+	if n == 0 {
+		r.Bad("builder/shouldCheckAgainstZero calls", "", "no call found")
+	}
+}
+
+// ---------------------------------------------------------------------------
+// C11.R13 / C06.R16: source and target are never handed on swapped
+
+func valueTypeRole(v ssa.Value, depth int) string {
+	if depth > 6 {
+		return ""
+	}
+	switch x := v.(type) {
+	case *ssa.Parameter:
+		return typeRole(x)
+	case *ssa.UnOp:
+		if x.Op == token.MUL {
+			if fa, ok := x.X.(*ssa.FieldAddr); ok {
+				return valueTypeRole(fa.X, depth+1)
+			}
+		}
+	case *ssa.FieldAddr:
+		return valueTypeRole(x.X, depth+1)
+	}
+	return ""
+}
+
+func roleOrderRule(p *Prog, r *Report, id string) {
+	r.Rule(id, "source and target keep their roles across calls: wherever a function of builder/generator that has (source, target *xtype.Type) parameters passes values derived from them to the (source, target) parameter pair of another own function (lookups, hasDeclared, Matches, Build, Assign …), the source-derived value goes to the source position and the target-derived one to the target position — a swapped pair asks about the reverse conversion", 40)
+	n := 0
+	for _, fi := range p.Funcs {
+		if fi.Lit != nil {
+			continue
+		}
+		rel := relPkg(fi.Pkg.PkgPath)
+		if rel != "builder" && rel != "generator" {
+			continue
+		}
+		sf := p.SSAFunc(fi)
+		if sf == nil {
+			continue
+		}
+		cnt := 0
+		allInstrs(sf, false, func(in ssa.Instruction) {
+			c, ok := in.(ssa.CallInstruction)
+			if !ok {
+				return
+			}
+			fn := ssaCalleeObj(c)
+			if fn == nil || !p.IsOwn(fn.Pkg()) {
+				return
+			}
+			sig := fn.Type().(*types.Signature)
+			// positions of the first two *xtype.Type parameters
+			var pos []int
+			for i := 0; i < sig.Params().Len(); i++ {
+				if pt, ok := sig.Params().At(i).Type().(*types.Pointer); ok && isNamed(pt.Elem(), modPath+"/xtype", "Type") {
+					pos = append(pos, i)
+				}
+			}
+			if len(pos) != 2 {
+				return
+			}
+			args := c.Common().Args
+			off := 0
+			if sig.Recv() != nil && !c.Common().IsInvoke() {
+				off = 1
+			}
+			if pos[1]+off >= len(args) {
+				return
+			}
+			ra, rb := valueTypeRole(args[pos[0]+off], 0), valueTypeRole(args[pos[1]+off], 0)
+			if ra == "" || rb == "" {
+				return
+			}
+			n++
+			cnt++
+			site := fmt.Sprintf("%s/call %s#%d (source, target)", fi.Name(), fn.Name(), cnt)
+			if ra == "target" && rb == "source" {
+				r.Bad(site, p.PosStr(in.Pos()), "the target-derived type is passed in the source position and the source-derived one in the target position: the callee decides about the reverse conversion")
+			} else {
+				r.OK(site, p.PosStr(in.Pos()), ra+", "+rb)
+			}
+		})
+	}
+	r.Analysed["source_target_pairs"] = n
+}
+
+// ---------------------------------------------------------------------------
+// C12.R15: struct-only settings are validated against the output format in effect
+
+func requireStructRule(p *Prog, r *Report, id string) {
+	r.Rule(id, "`name` and `struct:comment` are accepted exactly when a struct is generated: evaluated with the test `c.OutputFormat == FormatStruct` fixed, config.(*Converter).requireStruct returns an error on every path when it is false and nil on every path when it is true (the resolved output:format decides, not the kind of declaration), and both arms of parseConverterLine consult it", 4)
+	fi, sf := needFunc(p, r, "config.(*Converter).requireStruct")
+	if fi == nil {
+		return
+	}
+	for _, isStruct := range []bool{false, true} {
+		isStruct := isStruct
+		n := 0
+		sc := &absScenario{
+			assume: func(v ssa.Value, _ func(ssa.Value) absVal) (absVal, bool) {
+				b, ok := v.(*ssa.BinOp)
+				if !ok || (b.Op != token.EQL && b.Op != token.NEQ) {
+					return aUnknown, false
+				}
+				x, y := b.X, b.Y
+				if _, isK := x.(*ssa.Const); isK {
+					x, y = y, x
+				}
+				k, isK := y.(*ssa.Const)
+				if !isK || k.Value == nil || k.Value.Kind() != constant.String || constant.StringVal(k.Value) != "struct" || !loadsField(x, "OutputFormat") {
+					return aUnknown, false
+				}
+				n++
+				return aBool(isStruct == (b.Op == token.EQL)), true
+			},
+		}
+		site := fmt.Sprintf("config.(*Converter).requireStruct/OutputFormat==struct is %v", isStruct)
+		var got *ssa.Return
+		if isStruct {
+			got = absReach(sf, sc, func(ret *ssa.Return, eval func(ssa.Value) absVal) bool {
+				a := eval(ret.Results[0])
+				return !(a.k == absNil)
+			})
+		} else {
+			got = absReach(sf, sc, func(ret *ssa.Return, eval func(ssa.Value) absVal) bool {
+				a := eval(ret.Results[0])
+				return !(a.k == absNonNil)
+			})
+		}
+		switch {
+		case got != nil && isStruct:
+			r.Bad(site, p.PosStr(got.Pos()), "an error can be returned although the struct format is in effect: name / struct:comment would be refused on an ordinary converter")
+		case got != nil:
+			r.Bad(site, p.PosStr(got.Pos()), "nil can be returned although no struct is generated (output:format function or assign-variable): a `name` or `struct:comment` line is accepted and then silently has no effect")
+		default:
+			r.OK(site, p.PosStr(fi.Decl.Pos()), fmt.Sprintf("decided by the resolved output format (%d test(s) recognised)", n))
+		}
+	}
+	// both arms consult it and return its error
+	if pf := p.Func("config.parseConverterLine"); pf != nil {
+		info := pf.Pkg.TypesInfo
+		for _, arm := range []string{"name", "struct:comment"} {
+			site := fmt.Sprintf("config.parseConverterLine/arm %q consults requireStruct", arm)
+			found := false
+			for _, rf := range p.Region("config.parseConverterLine") {
+				ast.Inspect(rf.Decl, func(n ast.Node) bool {
+					cc, ok := n.(*ast.CaseClause)
+					if !ok {
+						return true
+					}
+					match := false
+					for _, e := range cc.List {
+						if s, ok := constString(info, e); ok && s == arm {
+							match = true
+						}
+					}
+					if !match || len(cc.Body) == 0 {
+						return true
+					}
+					if len(findCalls(info, cc, modPath+"/config", "Converter", "requireStruct")) >= 1 {
+						found = true
+					}
+					return true
+				})
+			}
+			if found {
+				r.OK(site, p.PosStr(pf.Decl.Pos()), "the arm calls c.requireStruct() (its error cannot be dropped: C13.R3)")
+			} else {
+				r.Bad(site, p.PosStr(pf.Decl.Pos()), "the arm no longer calls c.requireStruct(): the setting is accepted for every output format")
+			}
+		}
+	} else {
+		r.Unresolved("config.parseConverterLine")
+	}
+}
+
+// ---------------------------------------------------------------------------
+// C15.R10: an absolute output file is related to the declaring directory with filepath.Rel
+
+func resolvePackageRelRule(p *Prog, r *Report, id string) {
+	r.Rule(id, "the package of an absolute output file (@cwd/… or an absolute path) is inferred from its position relative to the declaring file: evaluated with filepath.IsAbs(targetFile) fixed to true, config.resolvePackage has no successful return that did not compute filepath.Rel(filepath.Dir(<declaring file>), <target file>) — prefix surgery on the path is wrong whenever the target is not below the declaring directory", 2)
+	fi, sf := needFunc(p, r, "config.resolvePackage")
+	if fi == nil {
+		return
+	}
+	var strs []*ssa.Parameter
+	for _, prm := range sf.Params {
+		if types.Identical(prm.Type(), types.Typ[types.String]) {
+			strs = append(strs, prm)
+		}
+	}
+	if len(strs) != 3 {
+		r.Unresolved("config.resolvePackage/(sourceFileName, sourcePackage, targetFile)")
+		return
+	}
+	srcFile, target := strs[0], strs[2]
+	nAbs := 0
+	relOK := func(c *ssa.Call) bool {
+		if len(c.Call.Args) != 2 || c.Call.Args[1] != ssa.Value(target) {
+			return false
+		}
+		d, ok := c.Call.Args[0].(*ssa.Call)
+		return ok && ssaCalleeObj(d) != nil && isFunc(ssaCalleeObj(d), "path/filepath", "", "Dir") && d.Call.Args[0] == ssa.Value(srcFile)
+	}
+	sc := &absScenario{
+		calls: func(c *ssa.Call, _ func(ssa.Value) absVal) (absVal, bool) {
+			if fn := ssaCalleeObj(c); fn != nil && isFunc(fn, "path/filepath", "", "IsAbs") && len(c.Call.Args) == 1 && c.Call.Args[0] == ssa.Value(target) {
+				nAbs++
+				return aBool(true), true
+			}
+			return aUnknown, false
+		},
+		marks: func(in ssa.Instruction) (string, bool) {
+			c, ok := in.(*ssa.Call)
+			if ok && ssaCalleeObj(c) != nil && isFunc(ssaCalleeObj(c), "path/filepath", "", "Rel") && relOK(c) {
+				return "rel", true
+			}
+			return "", false
+		},
+	}
+	got := absReachState(sf, sc, func(ret *ssa.Return, eval func(ssa.Value) absVal, st map[string]absVal) bool {
+		if a := eval(ret.Results[len(ret.Results)-1]); a.k == absNonNil {
+			return false
+		}
+		return !(st["@rel"].k == absBool && st["@rel"].b)
+	})
+	site := "config.resolvePackage/absolute target"
+	switch {
+	case got != nil:
+		r.Bad(site, p.PosStr(got.Pos()), "a successful return is reached for an absolute target file without filepath.Rel(filepath.Dir(sourceFileName), targetFile): the inferred package path is wrong when the target is not below the declaring directory (e.g. converter in sub/, output @cwd/out/gen.go)")
+	case nAbs == 0:
+		r.Bad(site, p.PosStr(fi.Decl.Pos()), "filepath.IsAbs(targetFile) is not consulted")
+	default:
+		r.OK(site, p.PosStr(fi.Decl.Pos()), "filepath.Rel(filepath.Dir(sourceFileName), targetFile) on every successful path")
+	}
+	// the result is joined onto the declaring package
+	joined := false
+	allInstrs(sf, false, func(in ssa.Instruction) {
+		c, ok := in.(*ssa.Call)
+		if ok && ssaCalleeObj(c) != nil && isFunc(ssaCalleeObj(c), "path/filepath", "", "Join") {
+			joined = true
+		}
+	})
+	if joined {
+		r.OK("config.resolvePackage/join", p.PosStr(fi.Decl.Pos()), "joined onto the declaring package path")
+	} else {
+		r.Bad("config.resolvePackage/join", p.PosStr(fi.Decl.Pos()), "the relative position is not joined onto the declaring package path")
+	}
+}
+
+// ---------------------------------------------------------------------------
+// C16.R8: build tags and the output constraint are opaque to goverter
+
+var tagFields = map[string]bool{"BuildTags": true, "OutputBuildConstraint": true, "OuputBuildConstraint": true, "BuildConstraint": true}
+
+// tagsOpaqueRule: the -build-tags list and the output constraint are only handed on: copied between configuration
+// structs, compared with "", appended to the loader's `-tags` flag, or emitted after "//go:build ".  Own code that
+// splits, parses or compares them interprets a language (go/build tags and constraints) it does not own: every such
+// interpretation seen so far refused valid complementary pairs.
+func tagsOpaqueRule(p *Prog, r *Report, id string) {
+	r.Rule(id, "the -build-tags value and the output constraint are treated as opaque strings on their whole way from the CLI to packages.Load and to the file header (formatting them into a diagnostic aside): every use of a value read from a BuildTags / OutputBuildConstraint / BuildConstraint field (followed through own parameters, closures and φ) is a copy into another such field, a comparison with \"\", an element of the `-tags` flag list, or the operand of \"//go:build \" + … — goverter never validates or interprets them itself, so every complementary pair the go tool accepts is accepted", 1)
+	type item struct {
+		v  ssa.Value
+		fn *ssa.Function
+	}
+	seen := map[ssa.Value]bool{}
+	var work []item
+	push := func(v ssa.Value, fn *ssa.Function) {
+		if v != nil && !seen[v] {
+			seen[v] = true
+			work = append(work, item{v, fn})
+		}
+	}
+	fnOf := map[*types.Func]*ssa.Function{}
+	for _, fi := range p.Funcs {
+		if fi.Lit != nil {
+			continue
+		}
+		sf := p.SSAFunc(fi)
+		if sf == nil {
+			continue
+		}
+		fnOf[fi.Obj.Origin()] = sf
+		allInstrs(sf, true, func(in ssa.Instruction) {
+			ld, ok := in.(*ssa.UnOp)
+			if !ok || ld.Op != token.MUL {
+				return
+			}
+			if fa, ok := ld.X.(*ssa.FieldAddr); ok && tagFields[fieldName(fa)] && types.Identical(ld.Type().Underlying(), types.Typ[types.String]) {
+				push(ld, in.Parent())
+			}
+		})
+	}
+	nUses, nBad := 0, 0
+	where := func(in ssa.Instruction) string {
+		f := in.Parent()
+		for f.Parent() != nil {
+			f = f.Parent()
+		}
+		return ssaName(f)
+	}
+	for len(work) > 0 {
+		it := work[0]
+		work = work[1:]
+		refs := it.v.Referrers()
+		if refs == nil {
+			continue
+		}
+		for _, ref := range *refs {
+			nUses++
+			bad := ""
+			switch x := ref.(type) {
+			case *ssa.DebugRef:
+				nUses--
+			case *ssa.Store:
+				if x.Val != it.v {
+					break
+				}
+				switch a := x.Addr.(type) {
+				case *ssa.FieldAddr:
+					if !tagFields[fieldName(a)] {
+						bad = "stored into field " + fieldName(a)
+					}
+				case *ssa.IndexAddr:
+					// element of a variadic argument list: must be an append to a BuildFlags list next to "-tags"
+					if !isTagsFlagList(a) {
+						bad = "stored into a list that is not the loader's (\"-tags\", <tags>) flag list"
+					}
+				case *ssa.Alloc:
+					// a local variable cell: follow its loads
+					if a.Referrers() != nil {
+						for _, r2 := range *a.Referrers() {
+							if ld, ok := r2.(*ssa.UnOp); ok && ld.Op == token.MUL {
+								push(ld, ld.Parent())
+							}
+						}
+					}
+				default:
+					bad = "stored through " + x.Addr.String()
+				}
+			case *ssa.BinOp:
+				other := x.Y
+				if other == it.v {
+					other = x.X
+				}
+				k, isK := other.(*ssa.Const)
+				switch {
+				case (x.Op == token.EQL || x.Op == token.NEQ) && isK && k.Value != nil && k.Value.Kind() == constant.String && constant.StringVal(k.Value) == "":
+				case x.Op == token.ADD && isK && k.Value != nil && k.Value.Kind() == constant.String && strings.HasPrefix(constant.StringVal(k.Value), "//go:build"):
+				default:
+					bad = "used in the expression `" + x.String() + "` (compared or combined with something other than \"\" / \"//go:build \")"
+				}
+			case *ssa.Phi:
+				push(x, x.Parent())
+			case *ssa.MakeInterface:
+				if !onlyFormatted(x) {
+					bad = "converted to an interface value that is not merely formatted by package fmt"
+				}
+			case *ssa.MakeClosure:
+				fn := x.Fn.(*ssa.Function)
+				for i, b := range x.Bindings {
+					if b == it.v && i < len(fn.FreeVars) {
+						push(fn.FreeVars[i], fn)
+					}
+				}
+			case ssa.CallInstruction:
+				cc := x.Common()
+				if b, ok := cc.Value.(*ssa.Builtin); ok {
+					if b.Name() != "append" {
+						bad = "passed to builtin " + b.Name()
+					}
+					break
+				}
+				callee := cc.StaticCallee()
+				if callee == nil || !p.ssaIsOwn(callee) {
+					name := "<dynamic call>"
+					if o := ssaCalleeObj(x); o != nil {
+						name = mutatorName(o)
+					}
+					bad = "passed to " + name
+					break
+				}
+				for i, a := range cc.Args {
+					if a == it.v && i < len(callee.Params) {
+						push(callee.Params[i], callee)
+					}
+				}
+			default:
+				bad = fmt.Sprintf("used by %T", ref)
+			}
+			if bad != "" {
+				nBad++
+				r.Bad(fmt.Sprintf("%s/use of tags or constraint#%d", where(ref), nBad), p.PosStr(ref.Pos()), "the build-tag list / output constraint is "+bad+": goverter interprets a value it should only hand on — valid complementary -build-tags / -output-constraint pairs (dots, digits, several tags) can be refused before the packages are loaded")
+			}
+		}
+	}
+	r.Analysed["tag_value_uses"] = nUses
+	if nBad == 0 {
+		if nUses < 8 {
+			r.Bad("own code/tag value uses", "", fmt.Sprintf("only %d uses of the tag/constraint values found (vacuous)", nUses))
+		} else {
+			r.OK("own code/tag and constraint values only handed on", "", fmt.Sprintf("%d uses: copies, \"\" tests, -tags flag lists, //go:build header", nUses))
+		}
+	}
+}
+
+// onlyFormatted: the interface value only ends up in the variadic arguments of fmt functions (a diagnostic text).
+func onlyFormatted(m *ssa.MakeInterface) bool {
+	if m.Referrers() == nil {
+		return true
+	}
+	for _, ref := range *m.Referrers() {
+		switch x := ref.(type) {
+		case *ssa.DebugRef:
+		case *ssa.Store:
+			ia, ok := x.Addr.(*ssa.IndexAddr)
+			if !ok {
+				return false
+			}
+			arr, ok := ia.X.(*ssa.Alloc)
+			if !ok || arr.Referrers() == nil {
+				return false
+			}
+			for _, r2 := range *arr.Referrers() {
+				sl, ok := r2.(*ssa.Slice)
+				if !ok || sl.Referrers() == nil {
+					continue
+				}
+				for _, r3 := range *sl.Referrers() {
+					c, ok := r3.(ssa.CallInstruction)
+					if !ok || ssaCalleeObj(c) == nil || objPkgPath(ssaCalleeObj(c)) != "fmt" {
+						return false
+					}
+				}
+			}
+		case ssa.CallInstruction:
+			if ssaCalleeObj(x) == nil || objPkgPath(ssaCalleeObj(x)) != "fmt" {
+				return false
+			}
+		default:
+			return false
+		}
+	}
+	return true
+}
+
+func isTagsFlagList(ia *ssa.IndexAddr) bool {
+	arr, ok := ia.X.(*ssa.Alloc)
+	if !ok || arr.Referrers() == nil {
+		return false
+	}
+	for _, ref := range *arr.Referrers() {
+		o, ok := ref.(*ssa.IndexAddr)
+		if !ok || o.Referrers() == nil {
+			continue
+		}
+		for _, r2 := range *o.Referrers() {
+			if st, ok := r2.(*ssa.Store); ok {
+				if k, ok := st.Val.(*ssa.Const); ok && k.Value != nil && k.Value.Kind() == constant.String && constant.StringVal(k.Value) == "-tags" {
+					return true
+				}
+			}
+		}
+	}
+	return false
+}
+
+// ---------------------------------------------------------------------------
+// C18.R8 / C01.R12: Definition.Package names the package that declares the function
+
+func definitionPackageRule(p *Prog, r *Report, id string) {
+	r.Rule(id, "method.Definition.Package is the package that declares the parsed object: in method.Parse every store to .Package is obj.Pkg().Path() of the object being parsed — it is what the emitted qualifiers (jen.Qual(def.Package, def.Name) in init() and in calls) and therefore the imports are built from; the output package is a different thing for goverter:variables generated elsewhere", 1)
+	n := 0
+	for _, rf := range p.Region("method.Parse") {
+		sf := p.SSAFunc(rf)
+		if sf == nil {
+			continue
+		}
+		allInstrs(sf, true, func(in ssa.Instruction) {
+			st, ok := in.(*ssa.Store)
+			if !ok {
+				return
+			}
+			fa, ok := st.Addr.(*ssa.FieldAddr)
+			if !ok || fieldName(fa) != "Package" {
+				return
+			}
+			if pt, ok := fa.X.Type().Underlying().(*types.Pointer); !ok || !isNamed(pt.Elem(), modPath+"/method", "Definition") {
+				return
+			}
+			n++
+			site := fmt.Sprintf("%s/Definition.Package =#%d", rf.Name(), n)
+			good := false
+			if c, ok := st.Val.(*ssa.Call); ok && ssaCalleeObj(c) != nil && isFunc(ssaCalleeObj(c), "go/types", "Package", "Path") && len(c.Call.Args) == 1 {
+				// receiver: obj.Pkg() (possibly via a local / φ after the nil test)
+				var fromPkg func(v ssa.Value, d int) bool
+				fromPkg = func(v ssa.Value, d int) bool {
+					if d > 4 {
+						return false
+					}
+					switch x := v.(type) {
+					case *ssa.Call:
+						cc := x.Common()
+						if cc.IsInvoke() && cc.Method.Name() == "Pkg" {
+							return isParamOrItsCell(cc.Value)
+						}
+					case *ssa.Phi:
+						for _, e := range x.Edges {
+							if !fromPkg(e, d+1) {
+								return false
+							}
+						}
+						return true
+					}
+					return false
+				}
+				good = fromPkg(c.Call.Args[0], 0)
+			}
+			if good {
+				r.OK(site, p.PosStr(st.Pos()), "obj.Pkg().Path()")
+			} else {
+				r.Bad(site, p.PosStr(st.Pos()), "Definition.Package is not the declaring package of the parsed object (obj.Pkg().Path()): qualifiers for the user's function variables / custom functions point to another package — the emitted file imports a package it does not need, or assigns variables that do not exist there")
+			}
+		})
+	}
+	if n == 0 {
+		r.Bad("method.Parse/Definition.Package", "", "no store to Definition.Package found")
+	}
+}
+
+// ---------------------------------------------------------------------------
+// C17.O11: `gen` without a package pattern is a usage error
+
+func missingPatternRule(p *Prog, r *Report, id string) {
+	r.Rule(id, "`goverter gen` with options but without a PACKAGE pattern is a usage error (exit 1, nothing generated): evaluated with len(fs.Args()) — what is left after flag parsing — fixed to 0, cli.parseGen has no path returning success; and fixed to 1 a successful return exists", 2)
+	fi, sf := needFunc(p, r, "cli.parseGen")
+	if fi == nil {
+		return
+	}
+	for _, k := range []int64{0, 1} {
+		k := k
+		n := 0
+		sc := &absScenario{
+			assume: func(v ssa.Value, _ func(ssa.Value) absVal) (absVal, bool) {
+				c, ok := v.(*ssa.Call)
+				if !ok {
+					return aUnknown, false
+				}
+				b, ok := c.Call.Value.(*ssa.Builtin)
+				if !ok || b.Name() != "len" || len(c.Call.Args) != 1 {
+					return aUnknown, false
+				}
+				in, ok := c.Call.Args[0].(*ssa.Call)
+				if !ok || ssaCalleeObj(in) == nil || !isFunc(ssaCalleeObj(in), "flag", "FlagSet", "Args") {
+					return aUnknown, false
+				}
+				n++
+				return aInt(k), true
+			},
+		}
+		got := absReach(sf, sc, func(ret *ssa.Return, eval func(ssa.Value) absVal) bool {
+			if !successGoal(ret, eval) {
+				return false
+			}
+			// the command returned is a *Generate (help is a success too, but generates nothing)
+			mi, ok := ret.Results[0].(*ssa.MakeInterface)
+			return !ok || isNamed(derefType(mi.X.Type()), modPath+"/cli", "Generate")
+		})
+		site := fmt.Sprintf("cli.parseGen/%d pattern(s) after the options", k)
+		switch {
+		case k == 0 && got != nil:
+			r.Bad(site, p.PosStr(got.Pos()), "a Generate command is returned although no package pattern is left after the options: goverter then loads whatever package is in the working directory and writes files instead of printing the usage and exiting 1")
+		case k == 1 && got == nil:
+			r.Bad(site, p.PosStr(fi.Decl.Pos()), "no successful return with one pattern")
+		default:
+			r.OK(site, p.PosStr(fi.Decl.Pos()), fmt.Sprintf("decided on len(fs.Args()) (%d test(s))", n))
+		}
+	}
+}
+
+// isParamOrItsCell: v is a parameter, or the load of a local cell that only ever holds a parameter (captured by a closure).
+func isParamOrItsCell(v ssa.Value) bool {
+	if _, ok := v.(*ssa.Parameter); ok {
+		return true
+	}
+	ld, ok := v.(*ssa.UnOp)
+	if !ok || ld.Op != token.MUL {
+		return false
+	}
+	cell, ok := ld.X.(*ssa.Alloc)
+	if !ok || cell.Referrers() == nil {
+		return false
+	}
+	n := 0
+	for _, ref := range *cell.Referrers() {
+		if st, ok := ref.(*ssa.Store); ok && st.Addr == cell {
+			n++
+			if _, isPrm := st.Val.(*ssa.Parameter); !isPrm {
+				return false
+			}
+		}
+	}
+	return n > 0
 }
